@@ -89,7 +89,7 @@ def _big_table(rng, tier):
             rows = [r & ~(1 << rng.randrange(m)) for r in rows[:-1]]
             n -= 1
         return n, m, rows
-    n = rng.choice([40, 80, 120] if tier == 'quick' else [80, 120, 200, 300])     # chain: deep, thin lattice (Lindig is cubic here)
+    n = rng.choice([40, 80, 120] if tier == 'quick' else [80, 120, 160])     # chain: deep, thin lattice (Lindig is cubic here)
     return n, n, [(1 << (i + 1)) - 1 for i in range(n)]
 
 
